@@ -37,7 +37,8 @@ package yqlib
 //@   ensures @format {C01} result0 == intFormat(numberString)
 
 //@ func isTruthyNode
-//@   props C15 C01 C19 C11
+//@   props C15 C01 C19 C11 C08
+//@   modifies \nothing
 //@   ensures result == (node != nil && node.Tag != "!!null" && (!(node.Kind == ScalarNode && node.Tag == "!!bool") || truthyText(node.Value)))
 
 //@ func parseSnippet
@@ -1832,3 +1833,24 @@ package yqlib
 //@ func contains
 //@   trusted
 //@   modifies \nothing
+
+// front_matter.go: what follows the front matter is read from the input itself: the reader handed on is the
+// very reader the front matter was consumed from, and the input is not closed behind it (C12: the text after
+// the front matter is preserved byte for byte)
+//@ func (*frontMatterHandlerImpl).Split
+//@   props C12
+//@   nosafety
+//@   nopre
+//@   noframe
+//@   at return: assert @the-rest-is-read-from-the-same-reader {C12} implies(result == nil, f.contentReader == iface(reader))
+//@   at safelyCloseFile: assert @only-the-temporary-file-is-closed {C12} arg0 == yamlTempFile
+
+// candidiate_node_json.go: a scalar is handed to the JSON encoder as the value GetValueRep computed for it, and
+// only when GetValueRep reported no error (C06: yq fails rather than emit a different value)
+//@ func (*CandidateNode).MarshalJSON
+//@   props C06
+//@   nosafety
+//@   nopre
+//@   noframe
+//@   requires o != nil
+//@   at Encode#2: assert @only-a-representable-scalar-is-encoded {C06} calls(GetValueRep) == 1 && err == nil && arg1 == value
